@@ -1,0 +1,67 @@
+// SPDX-License-Identifier: Apache-2.0
+// Copyright Authors of Cilium
+
+//go:build verif
+
+package part
+
+import (
+	"encoding/hex"
+	"strings"
+)
+
+// Verification instrumentation. Only compiled with `-tags verif`.
+
+func verifDumpNode[T any](b *strings.Builder, n *header[T]) {
+	if n == nil {
+		b.WriteString("nil")
+		return
+	}
+	if n.isLeaf() {
+		b.WriteString("L" + hex.EncodeToString(n.prefix()) + ":" + hex.EncodeToString(n.getLeaf().fullKey()))
+		return
+	}
+	b.WriteString("N")
+	switch n.kind() {
+	case nodeKind4:
+		b.WriteString("4")
+	case nodeKind16:
+		b.WriteString("16")
+	case nodeKind48:
+		b.WriteString("48")
+	case nodeKind256:
+		b.WriteString("256")
+	}
+	b.WriteString("/" + hex.EncodeToString(n.prefix()))
+	if l := n.getLeaf(); l != nil {
+		b.WriteString(":" + hex.EncodeToString(l.fullKey()))
+	}
+	b.WriteString("(")
+	first := true
+	for _, c := range n.children() {
+		if c == nil {
+			continue
+		}
+		if !first {
+			b.WriteString(" ")
+		}
+		first = false
+		verifDumpNode(b, c)
+	}
+	b.WriteString(")")
+}
+
+// VerifDumpTree renders the structure of the tree (node kinds, compressed
+// prefixes, leaf keys) in a canonical text form.
+func VerifDumpTree[T any](t Tree[T]) string {
+	var b strings.Builder
+	verifDumpNode(&b, t.root)
+	return b.String()
+}
+
+// VerifDumpTxn renders the structure of the transaction's current root.
+func VerifDumpTxn[T any](txn *Txn[T]) string {
+	var b strings.Builder
+	verifDumpNode(&b, txn.root)
+	return b.String()
+}
